@@ -25,8 +25,23 @@ def public_names(modname):
     if m is None:
         return None
     if hasattr(m, "__all__"):
-        return sorted(map(str, m.__all__))
+        # the public names that are actually *bound*: an __all__ entry without a binding is not a bound public name
+        return sorted(str(k) for k in m.__all__ if isinstance(k, str) and hasattr(m, k))
     return sorted(k for k in vars(m) if not k.startswith("_"))
+
+
+def loaded_digests():
+    """short digest of the public names of every package module loaded so far (tests excluded)"""
+    import hashlib
+
+    out = {}
+    for name in sorted(sys.modules):
+        if (name == PKG or name.startswith(PKG + ".")) and ".tests" not in name and sys.modules[name] is not None:
+            try:
+                out[name] = hashlib.sha1(json.dumps(public_names(name)).encode()).hexdigest()[:10]
+            except Exception as e:  # a module whose __all__ cannot be listed
+                out[name] = "error:%s" % type(e).__name__
+    return out
 
 
 def try_import(name):
@@ -55,7 +70,8 @@ if __name__ == "__main__":
             st2, err2 = try_import(m2)
             out = {"kind": "pair", "m1": m1, "m2": m2, "status_m1": status, "status": st2, "error": err2,
                    "names_m1": public_names(m1) if status == "ok" else None,
-                   "names_m2": public_names(m2) if st2 == "ok" else None}
+                   "names_m2": public_names(m2) if st2 == "ok" else None,
+                   "loaded": loaded_digests() if st2 == "ok" and status == "ok" else None}
             os.write(w, json.dumps(out).encode())
             os._exit(0)
         os.close(w)
